@@ -11,7 +11,9 @@ package PKGNAME
 import (
 	"bytes"
 	"errors"
+	"io"
 
+	"github.com/jdillenkofer/pithos/internal/checksumutils"
 	"github.com/jdillenkofer/pithos/internal/storage"
 )
 
@@ -289,7 +291,7 @@ func verifApply(e *verifEnv, m *verifModel, op verifOp) {
 		case 2:
 			opts = &storage.UploadPartCopyOptions{Range: &storage.ByteRange{Start: &zero, End: &one}}
 		}
-		_, err := e.st.UploadPartCopy(verifCtx, e.bucket, key, e.bucket, verifKeys[m.up.key], m.up.id, int32(op.part), opts)
+		cres, err := e.st.UploadPartCopy(verifCtx, e.bucket, key, e.bucket, verifKeys[m.up.key], m.up.id, int32(op.part), opts)
 		if !src.exists {
 			verifAssert(err != nil, "UploadPartCopy of an absent source succeeded")
 			return
@@ -314,6 +316,10 @@ func verifApply(e *verifEnv, m *verifModel, op verifOp) {
 			body = src.body[:1]
 		}
 		m.up.have[op.part-1], m.up.part[op.part-1] = true, body
+		if verifCheckSums {
+			verifCover("part-copy-etag")
+			verifAssert(verifStrEq(cres.ETag, *verifSumsOf(body).ETag), "C04: the ETag returned by UploadPartCopy is not the MD5 of the bytes copied into the part")
+		}
 	case opMPAbort:
 		verifAssume(m.up.active)
 		err := e.st.AbortMultipartUpload(verifCtx, e.bucket, verifKeys[m.up.key], m.up.id)
@@ -338,6 +344,20 @@ func verifObserve01(e *verifEnv, m *verifModel) {
 		verifAssert(obj.Size == int64(len(km.body)) && head.Size == obj.Size, "size differs from the last acknowledged write")
 		verifAssert(verifBytesEq(got, km.body), "content differs from the last acknowledged write")
 		verifAssert(verifCTEq(obj.ContentType, km.ct) && verifCTEq(head.ContentType, km.ct), "content type differs from the last acknowledged write")
+		if verifCheckSums {
+			// C04: every checksum value HeadObject / GetObject report is the value of
+			// that function over the current content (the hash stubs are injective
+			// tokens of the bytes hashed)
+			want := verifSumsOf(km.body)
+			chk := func(p, w *string) bool { return p == nil || verifStrEq(*p, *w) }
+			ok := verifAnd(chk(head.ChecksumCRC32, want.ChecksumCRC32), chk(head.ChecksumCRC32C, want.ChecksumCRC32C))
+			ok = verifAnd(ok, verifAnd(chk(head.ChecksumCRC64NVME, want.ChecksumCRC64NVME), verifAnd(chk(head.ChecksumSHA1, want.ChecksumSHA1), chk(head.ChecksumSHA256, want.ChecksumSHA256))))
+			ok = verifAnd(ok, verifAnd(chk(obj.ChecksumCRC32, want.ChecksumCRC32), chk(obj.ChecksumSHA256, want.ChecksumSHA256)))
+			verifAssert(ok, "C04: a reported x-amz-checksum value is not the checksum of the object's current content")
+			if head.ChecksumCRC32 != nil {
+				verifCover("checksum-reported")
+			}
+		}
 	}
 }
 
@@ -392,6 +412,30 @@ func verifSetup(e *verifEnv, m *verifModel, which int) {
 	case 8: // a and b with independently written (possibly identical) content
 		script(verifOp{kind: opCreateBucket}, verifOp{kind: opPut, key: 0, body: x}, verifOp{kind: opPut, key: 1, body: y})
 	}
+}
+
+// verifSumsOf: the checksum values of data as the storage computes them for a
+// plain upload: under the executor the injective tokens of the hash stub,
+// natively (replay) the real MD5/CRC/SHA values.
+func verifSumsOf(data []byte) *checksumutils.ChecksumValues {
+	_, v, err := checksumutils.CalculateChecksumsStreaming(verifCtx, bytes.NewReader(data), func(r io.Reader) error {
+		_, err := io.ReadAll(r)
+		return err
+	})
+	if err != nil {
+		panic(err)
+	}
+	return v
+}
+
+// verifCheckSums switches on the C04 oracles (checksum values against the
+// current content); set by VerifC04StoredChecksums only.
+var verifCheckSums bool
+
+// VerifC04StoredChecksums: the C01 histories with the checksum oracles on.
+func VerifC04StoredChecksums() {
+	verifCheckSums = true
+	VerifC01History()
 }
 
 func VerifC01History() {
